@@ -20,6 +20,8 @@ def jobs(tier, s0):
             # scalar draws of the first cycle (branch deciders): the rarely taken side of every `if random() < p`
             out.append((_scn(n, 'cont3z', cycles=2, seed=s0 + 1, runner='c12'),
                         {'d': 1, 'range': 'first', 'kinds': ('scalar',)}))
+        # scores on a denormal scale
+        out.append((_scn(n, 'cont3z', cycles=2, seed=s0, runner='c12', obj='denorm'), {'d': 0}))
         # longer runs (states that take several generations to appear, e.g. recovered / aged / exhausted agents)
         for sd in range(s0, s0 + (4 if tier == 'quick' else 8)):
             out.append((_scn(n, 'cont3z', cycles=12, seed=sd, runner='c12'), {'d': 0}))
